@@ -208,9 +208,10 @@ theorem write_loss_immediate (s : St) (b : Bytes) (react : List Bytes) (rest : L
 
 /-! ## NETCONF: `Driver.read` forwarding and `sendRPC` -/
 
-/-- Safety half for an RPC. `NInv`: the delimiter matcher first fires exactly at the end of the
-complete reply, the loss strikes before that many bytes can arrive, nothing is stored under the
-RPC's message-id. Then no interleaving of the three goroutines and no resolution of the `select`
+/-- Safety half for an RPC. `NInv`: the delimiter matcher fires on no prefix of the reply stream that
+can still be delivered (e.g. it first fires exactly at the end of the complete reply and the loss
+strikes before that many bytes can arrive: `ninv_of_exact`), and nothing is stored under the RPC's
+message-id. Then no interleaving of the three goroutines and no resolution of the `select`
 makes `sendRPC` return a reply. -/
 theorem nc_loss_never_ok (msgP : Bytes → Bool) (idOf : Bytes → Nat) (sched : List NActor)
     (n n' : NSt) (r : Rpc) (outs : List Bytes) (h : NInv msgP n r) :
@@ -276,7 +277,7 @@ example :
     (match nrun msgP (fun _ => 101) (nticks [0, 3, 5, 1, 2]) n r with
       | (_, .inr (.error e)) => e == .connection
       | _ => false) = true := by
-  refine ⟨⟨⟨by decide, by decide⟩, by decide, rfl⟩, by simp [NLostArmed, fresh], by decide⟩
+  refine ⟨ninv_of_exact _ _ _ ⟨by decide, by decide⟩ (by decide) rfl, by simp [NLostArmed, fresh], by decide⟩
 
 /-! ## facts about the concrete operations -/
 
